@@ -95,7 +95,9 @@ def finding_for(findings, prop, unit, fn, kind):
             continue
         if f["property"] != prop:
             continue
-        m = f.get("match", {})
+        m = f.get("match")
+        if not m:
+            continue      # findings without an explicit match are reported through finding__ functions only
         if m.get("unit") and m["unit"] != unit:
             continue
         if m.get("function") and m["function"] != fn:
@@ -178,11 +180,29 @@ def check_property(prop, tier, repo, cfg, seed):
             assumptions_total[k] = assumptions_total.get(k, 0) + v
         if r["status"] == "undecided":
             undecided.append(r)
-        real = [f for f in r.get("functions", []) if not f["function"].split("::")[-1].startswith("vacuity__")]
+        real = [f for f in r.get("functions", []) if not f["function"].split("::")[-1].startswith(("vacuity__", "finding__"))]
         nfail_fns = set()
         idx = 0
         for fail in r.get("failed", []):
-            props = props_for_failure(ucfg, fail.get("function"), fail.get("kind", ""))
+            fname = str(fail.get("function") or "")
+            if fname.startswith("finding__"):
+                # a function that restates an obligation WITHOUT the carve-out of an open finding:
+                # expected to fail while the finding is open
+                kid = fname.split("__")[1]
+                kf = next((f for f in findings if f["id"] == kid), None)
+                if kf and kf.get("status") == "open":
+                    if kf["property"] == prop and kid not in [k["id"] for k, _ in known]:
+                        known.append((kf, fail))
+                    continue
+                if kf is None or kf["property"] != prop:
+                    if kf is not None:
+                        continue
+                # listed as fixed but fails again (or not listed at all): report
+                idx += 1
+                path = write_replay(prop, r, fail, idx)
+                violations.append((r, fail, path))
+                continue
+            props = fail.get("props") or props_for_failure(ucfg, fail.get("function"), fail.get("kind", ""))
             nfail_fns.add(fail.get("function"))
             if prop not in props:
                 continue
